@@ -51,6 +51,7 @@ func c05World(t *testing.T, run *h.Run) (int64, int64) {
 	}
 	var states, trans int64
 	for _, o := range scs {
+		setupRun = run
 		sc := mkScenario(t, o)
 		start := sc.Init[0].Now
 		sc.Prune = func(s *w.State) bool { return s.Now > start+horizon }
